@@ -451,7 +451,7 @@ MUTANTS = [
          new="        self.nla_tau = 0\n        self.ntau = 0\n        self.nla_S = 0\n        self.nla_N = 0\n        self.nla_F = 0\n        q0 = []", expect="C14.R2"),
     dict(id="c14-m9", what="Wla_g_q iterates the gamma list", file=SYS,
          old="        for contr in self.__g_contr:\n            coo[contr.uDOF, contr.qDOF] = contr.Wla_g_q(",
-         new="        for contr in self.__gamma_contr:\n            coo[contr.uDOF, contr.qDOF] = contr.Wla_g_q(", expect="C14.R5"),
+         new="        for contr in self.__gamma_contr:\n            coo[contr.uDOF, contr.qDOF] = contr.Wla_g_q(", expect="C14.R3"),
     dict(id="c14-m10", what="q_dot rows use qDOF instead of my_qDOF (interaction DOFs overwrite)", file=SYS,
          old="q_dot[contr.my_qDOF] = contr.q_dot(t, q[contr.qDOF], u[contr.uDOF])", new="q_dot[contr.qDOF] = contr.q_dot(t, q[contr.qDOF], u[contr.uDOF])", expect="C14.R4"),
     dict(id="c14-m11", what="add(): rename branch removed", file=SYS,
